@@ -240,6 +240,12 @@ func (r *rateLimiter) DoAcquire(upstream string, acquireRequest *proxyv1alpha1.R
 		return nil, fmt.Errorf("limit store for upstream %s upstream shard %v not found", upstream, shardId)
 	}
 
+	// the counts recorded below are reclaimed through the client cache only: an
+	// instance that disappears before its first heartbeat must be known too
+	if len(acquireRequest.Spec.Instance) > 0 {
+		r.clientCache.Observe(acquireRequest.Spec.Instance)
+	}
+
 	var resultLogs []string
 	var logging bool
 
